@@ -67,8 +67,14 @@ func totality(sp h.SPConfig, input string) (*h.Violation, []string) {
 		{"RetrieveAssertionInfo", func() (bool, error) { r, err := sp.Build().RetrieveAssertionInfo(input); return r != nil, err }},
 		{"DecodeUnverifiedBaseResponse", func() (bool, error) { r, err := saml2.DecodeUnverifiedBaseResponse(input); return r != nil, err }},
 		{"DecodeUnverifiedLogoutResponse", func() (bool, error) { r, err := saml2.DecodeUnverifiedLogoutResponse(input); return r != nil, err }},
-		{"ValidateEncodedLogoutRequestPOST", func() (bool, error) { r, err := sp.Build().ValidateEncodedLogoutRequestPOST(input); return r != nil, err }},
-		{"ValidateEncodedLogoutResponsePOST", func() (bool, error) { r, err := sp.Build().ValidateEncodedLogoutResponsePOST(input); return r != nil, err }},
+		{"ValidateEncodedLogoutRequestPOST", func() (bool, error) {
+			r, err := sp.Build().ValidateEncodedLogoutRequestPOST(input)
+			return r != nil, err
+		}},
+		{"ValidateEncodedLogoutResponsePOST", func() (bool, error) {
+			r, err := sp.Build().ValidateEncodedLogoutResponsePOST(input)
+			return r != nil, err
+		}},
 	}
 	for _, c := range calls {
 		var has bool
